@@ -333,6 +333,9 @@ func checkC09(c *Check, p *Program) {
 				allOK = false
 			}
 		}
+		// and the exchange is made on every call: no path from the entry reaches an exit without the state request
+		mn, _ := pathCount(t.heartbeat.Blocks[0], func(in ssa.Instruction) bool { return in == ssa.Instruction(stateCall) }, nil)
+		c.Decide(mn >= 1, "C09.H3", hn+" every check asks the gateway", p.InstrPos(stateCall), "every path from the entry passes the connection-state request", "the heartbeat function can return without asking the gateway (an early exit before the request): a dead gateway goes unnoticed while that exit is taken")
 		c.Decide(allOK && nPaths >= 1, "C09.H3", hn+" silent exit only on err == nil && state == NoError", p.InstrPos(stateCall), fmt.Sprintf("%d path(s) avoid the failure signal, all carry both facts", nPaths), "the heartbeat function can end without signalling failure although the exchange failed or the gateway reported an error status")
 	}
 	// result channel: unbuffered, fed only behind channel match with res.Status
